@@ -192,3 +192,78 @@ def schedule_replay(ctx, cases, binary, n_graphs, per_graph, seed_offset=2000, l
         raise Infra("fewer than half of the TLC-chosen schedules were followed by the real binary (%d of %d): the gate or OwSimSched is out of step"
                     % (followed, s["evaluations"]))
     return ctx.notes[label]
+
+
+def split_design(ctx):
+    """OwSimSplit.tla (hand-over to the -writer child process) with TLC: the structure with the wait at exit satisfies
+    every property incl. termination; the structure without it (closing only from the last generation's hand-over) is
+    shown to violate exit-after-written exactly when the model's last generation has no cells (self-test of the spec)."""
+    notes = ctx.notes.setdefault("tlc", {})
+    for cfg in ("OwSimSplit_wait.cfg", "OwSimSplit_pinned.cfg"):
+        r = ctx.tlc("MCOwSimSplit", cfg=cfg, timeout=900)
+        r.require_ok(cfg)
+        ctx.cov["states"] += r.distinct
+        ctx.cov["transitions"] += r.generated
+        notes[cfg] = {"states_distinct": r.distinct, "states_generated": r.generated}
+    for cfg, inv in (("OwSimSplit_pinned_exit.cfg", "ExitOnlyAfterAllWritten"), ("OwSimSplit_pinned_lost.cfg", "NothingLost")):
+        r = ctx.tlc("MCOwSimSplit", cfg=cfg, timeout=900)
+        if ("Invariant %s is violated" % inv) not in (r.stdout or ""):
+            raise Infra("%s: the structure without a wait at exit was expected to violate %s (vacuity self-test)" % (cfg, inv))
+        notes[cfg] = "%s violated, as expected for the structure without a wait at exit" % inv
+
+
+def split_replay(ctx, cases, binary, n_graphs, label="split"):
+    """The split-output path on the real binary: a seeded sample of graphs is run with `-outputs <last model>=<file>`
+    plain, with slow library calls, and with one generation of the split model padded to thousands of cells (frames far
+    above the pipe capacity, big-then-small and small-then-big); every dataset of both files is compared with the
+    reference and the shared event log of both processes is validated against TraceOwSimSplit.tla."""
+    tdir = os.path.join(ctx.scratch, label + "-traces")
+    os.makedirs(tdir)
+    s = run_engine(ctx, cases, binary, ["-sample", str(n_graphs), "-options", "split", "-workers", "8", "-trace", tdir], seed_offset=4000)
+    for m in s["mismatches"]:
+        ctx.report({"kind": m["kind"], "option": m["option"]}, "ow-sim (%s): %s" % (m["option"], m["detail"][:1500]), m)
+    files = sorted(os.path.join(tdir, f) for f in os.listdir(tdir) if f.startswith("split_") and f.endswith(".ndjson"))
+
+    def one(p):
+        accepted, consumed, total, r = tracecheck.validate(ctx, "TraceOwSimSplit", p, timeout=600)
+        return p, accepted, consumed, total
+
+    ok, bad = 0, []
+    with concurrent.futures.ThreadPoolExecutor(max_workers=8) as ex:
+        for p, accepted, consumed, total in ex.map(one, files):
+            if accepted:
+                ok += 1
+            else:
+                lines = open(p).read().splitlines()
+                ev = lines[consumed] if 0 <= consumed < len(lines) else "(end of log)"
+                bad.append((p, consumed, ev, lines[max(1, consumed - 8):consumed], lines[0]))
+    seen = set()
+    for p, consumed, ev, before, cfg in bad:
+        try:
+            evname = json.loads(ev).get("ev")
+        except Exception:
+            evname = ev
+        cfgd = json.loads(cfg)
+        last_empty = bool(cfgd["counts"]) and cfgd["counts"][-1] == 0
+        key = (evname, last_empty)
+        if key in seen:
+            continue
+        seen.add(key)
+        ctx.report({"kind": "split-trace-rejected", "event": str(evname), "last_generation_empty": last_empty},
+                   "event log of ow-sim and its writer process is not a behaviour of OwSimSplit (wait at exit): event #%d %s; preceding: %s; config %s"
+                   % (consumed, ev, before, cfg[:400]), {"event": ev, "preceding": before, "config": cfg})
+    ctx.cov["evaluations"] += s["evaluations"]
+    ctx.cov["traces_validated_against_impl"] += ok
+    ctx.notes[label] = {"runs": s["evaluations"], "logs": len(files), "accepted": ok, "rejected": len(bad), "fail_kinds": s["extra"].get("fail_kinds")}
+    if files and not bad:
+        def mutate(evs):
+            ks = [i for i, e in enumerate(evs) if e.get("ev") == "cwritten"]
+            del evs[ks[-1]]
+            return "dropped the last cwritten event"
+        withw = [p for p in files if '"cwritten"' in open(p).read()]
+        if withw:
+            tracecheck.corrupt_and_expect_reject(ctx, "TraceOwSimSplit", withw[0], mutate)
+            ctx.notes[label]["binding_selftest"] = "log with a dropped cwritten event rejected"
+    if not files:
+        raise Infra("no split-output event log was recorded")
+    return ctx.notes[label]
